@@ -9,6 +9,7 @@
   per-request policy rebuild that the service performs.
 * RecordingDesigner - PartiallySerializableDesigner logging every update().
 """
+import contextlib
 import grpc
 
 from vizier import algorithms as vza
@@ -286,6 +287,52 @@ class RecordingDesigner(vza.PartiallySerializableDesigner):
     except ValueError as e:
       raise serializable.HarmlessDecodeError('bad recorded state') from e
     self.fresh = False
+
+
+@contextlib.contextmanager
+def recording_real_designers():
+  """Records what the designers hosted by the DEFAULT policy factory are given.
+
+  Wraps the public update() / load() of grid, quasi-random and eagle designers
+  (class-level, restored on exit); events go to RecordingDesigner.LOG in the
+  same format as RecordingDesigner's own.
+  """
+  from vizier._src.algorithms.designers import grid  # pylint: disable=g-import-not-at-top
+  from vizier._src.algorithms.designers import quasi_random  # pylint: disable=g-import-not-at-top
+  from vizier._src.algorithms.designers.eagle_strategy import eagle_strategy  # pylint: disable=g-import-not-at-top
+  classes = [grid.GridSearchDesigner, quasi_random.QuasiRandomDesigner, eagle_strategy.EagleStrategyDesigner]
+  state = {}  # id(instance) -> flags; the instance is kept referenced so that ids are not re-used
+  saved = []
+
+  def flags(inst):
+    return state.setdefault(id(inst), {'ref': inst, 'loaded': False, 'updated': False})
+
+  for cls in classes:
+    orig_update, orig_load = cls.update, cls.load
+
+    def update(self, completed, all_active, _orig=orig_update):
+      st = flags(self)
+      RecordingDesigner.LOG.append({
+          'event': 'update', 'fresh': not st['loaded'] and not st['updated'], 'n': None,
+          'completed': sorted(t.id for t in completed.trials),
+          'active': sorted(t.id for t in all_active.trials),
+      })
+      st['updated'] = True
+      return _orig(self, completed, all_active)
+
+    def load(self, metadata, _orig=orig_load):
+      out = _orig(self, metadata)
+      flags(self)['loaded'] = True  # only reached when the state was decoded
+      return out
+
+    saved.append((cls, orig_update, orig_load))
+    cls.update, cls.load = update, load
+  try:
+    yield
+  finally:
+    for cls, u, l in saved:
+      cls.update, cls.load = u, l
+    state.clear()
 
 
 def _x_of(t):
